@@ -20,6 +20,8 @@ package main
 // value that the program cannot have at that point.
 
 import (
+	"fmt"
+	"os"
 	"go/token"
 	"go/types"
 
@@ -213,6 +215,12 @@ func (m *Module) liftCell(fn *ssa.Function, cell *ssa.Alloc) {
 			if o, ok := solve(cl, atRD); ok {
 				order = append(order, o...)
 			}
+		}
+	}
+	// an abort-flag walker starts every run with the variable still nil
+	for _, cl := range m.abortFlagWalkers(fn, cell) {
+		if o, ok := solve(cl, cellDef{kind: 1, v: zeroOf(elem)}); ok {
+			order = append(order, o...)
 		}
 	}
 	// materialise the phis that loads need
@@ -462,4 +470,238 @@ func zeroOf(t types.Type) *ssa.Const {
 	c := ssa.NewConst(nil, t)
 	zeroConsts[t] = c
 	return c
+}
+
+// abortFlagWalkers: function literals of fn for which the captured variable cell
+// (an error pointer) is nil whenever they are entered. That is so when
+//   - the variable is nil before the literal is handed out: fn itself stores
+//     nothing but nil into it, and no other literal captures it;
+//   - the literal stores only nil or a never-nil error variable into it, every
+//     return of the literal is a constant or the value of `variable == nil`, and
+//     a constant true is not returned after a non-nil store: once the variable is
+//     set, the literal has returned false;
+//   - the literal is handed to exactly one function, which only calls it and
+//     never calls it again after it has returned false.
+// (The idiom: `walk(addr, func(...) bool { ...; err = E; ...; return err == nil })`.)
+func (m *Module) abortFlagWalkers(fn *ssa.Function, cell *ssa.Alloc) (res []*ssa.Function) {
+	if os.Getenv("FFC_DBG_AFW") != "" {
+		defer func() { fmt.Fprintf(os.Stderr, "AFW %s cell=%s -> %d\n", fn.Name(), cell.Comment, len(res)) }()
+	}
+	elem := cell.Type().Underlying().(*types.Pointer).Elem()
+	if !nillable(elem) || cell.Referrers() == nil {
+		return nil
+	}
+	var mcs []*ssa.MakeClosure
+	for _, r := range *cell.Referrers() {
+		switch x := r.(type) {
+		case *ssa.MakeClosure:
+			mcs = append(mcs, x)
+		case *ssa.Store:
+			if x.Addr == ssa.Value(cell) && !isNilConst(x.Val) {
+				return nil
+			}
+		}
+	}
+	if len(mcs) != 1 {
+		return nil
+	}
+	mc := mcs[0]
+	cl, ok := mc.Fn.(*ssa.Function)
+	if !ok || len(cl.Blocks) == 0 || cl.Signature.Results().Len() != 1 {
+		return nil
+	}
+	var fv *ssa.FreeVar
+	for i, b := range mc.Bindings {
+		if b == ssa.Value(cell) && i < len(cl.FreeVars) {
+			fv = cl.FreeVars[i]
+		}
+	}
+	if fv == nil || fv.Referrers() == nil {
+		return nil
+	}
+	// the literal's stores and returns
+	var nonNilStores []*ssa.Store
+	for _, r := range *fv.Referrers() {
+		switch x := r.(type) {
+		case *ssa.Store:
+			if x.Addr != ssa.Value(fv) {
+				return nil
+			}
+			if isNilConst(x.Val) {
+				continue
+			}
+			if !m.nonNilErrorGlobal(x.Val) {
+				return nil
+			}
+			nonNilStores = append(nonNilStores, x)
+		case *ssa.UnOp:
+			if x.Op != token.MUL {
+				return nil
+			}
+		case *ssa.DebugRef:
+		default:
+			return nil // (captured again, address taken)
+		}
+	}
+	reach := func(from *ssa.BasicBlock) map[*ssa.BasicBlock]bool {
+		seen := map[*ssa.BasicBlock]bool{from: true}
+		work := []*ssa.BasicBlock{from}
+		for len(work) > 0 {
+			b := work[len(work)-1]
+			work = work[:len(work)-1]
+			for _, s := range b.Succs {
+				if !seen[s] {
+					seen[s] = true
+					work = append(work, s)
+				}
+			}
+		}
+		return seen
+	}
+	for _, b := range cl.Blocks {
+		for _, in := range b.Instrs {
+			ret, ok := in.(*ssa.Return)
+			if !ok {
+				continue
+			}
+			if len(ret.Results) != 1 {
+				return nil
+			}
+			if k, isC := constBool(ret.Results[0]); isC {
+				if k {
+					for _, st := range nonNilStores {
+						if reach(st.Block())[b] {
+							return nil
+						}
+					}
+				}
+				continue
+			}
+			cmp, ok := ret.Results[0].(*ssa.BinOp)
+			if !ok || cmp.Op != token.EQL {
+				return nil
+			}
+			isLoad := func(v ssa.Value) bool {
+				u, ok := v.(*ssa.UnOp)
+				return ok && u.Op == token.MUL && u.X == ssa.Value(fv) && u.Block() == b
+			}
+			if !(isLoad(cmp.X) && isNilConst(cmp.Y)) && !(isLoad(cmp.Y) && isNilConst(cmp.X)) {
+				return nil
+			}
+			// (the load is in the return's block: after every store of this run)
+			for _, in2 := range b.Instrs {
+				if st, ok := in2.(*ssa.Store); ok && st.Addr == ssa.Value(fv) {
+					// a store in the same block must precede the load
+					ld := cmp.X
+					if !isLoad(ld) {
+						ld = cmp.Y
+					}
+					for _, in3 := range b.Instrs {
+						if in3 == ssa.Instruction(st) {
+							break
+						}
+						if in3 == ld.(ssa.Instruction) {
+							return nil
+						}
+					}
+				}
+			}
+		}
+	}
+	// handed to exactly one function that stops at the first false
+	refs := mc.Referrers()
+	if refs == nil {
+		return nil
+	}
+	var uses []ssa.Instruction
+	var passed ssa.Value = mc
+	for _, r := range *refs {
+		if _, ok := r.(*ssa.DebugRef); ok {
+			continue
+		}
+		if ct, ok := r.(*ssa.ChangeType); ok && ct.Referrers() != nil {
+			passed = ct
+			for _, r2 := range *ct.Referrers() {
+				if _, ok := r2.(*ssa.DebugRef); !ok {
+					uses = append(uses, r2)
+				}
+			}
+			continue
+		}
+		uses = append(uses, r)
+	}
+	if len(uses) != 1 {
+		return nil
+	}
+	call, ok := uses[0].(*ssa.Call)
+	if !ok {
+		return nil
+	}
+	callee := m.callee(call.Common())
+	if callee == nil || len(callee.Blocks) == 0 {
+		return nil
+	}
+	idx := -1
+	for i, a := range call.Common().Args {
+		if a == passed {
+			if idx >= 0 {
+				return nil
+			}
+			idx = i
+		}
+	}
+	if idx < 0 || idx >= len(callee.Params) || !m.stopsAtFirstFalse(callee, callee.Params[idx]) {
+		return nil
+	}
+	return []*ssa.Function{cl}
+}
+
+// stopsAtFirstFalse: fn uses its function parameter p only by calling it, tests
+// every result, and calls it no more once a call has returned false.
+func (m *Module) stopsAtFirstFalse(fn *ssa.Function, p *ssa.Parameter) bool {
+	if p.Referrers() == nil {
+		return false
+	}
+	var calls []*ssa.Call
+	for _, r := range *p.Referrers() {
+		switch x := r.(type) {
+		case *ssa.DebugRef:
+		case *ssa.Call:
+			if x.Common().Value != ssa.Value(p) {
+				return false
+			}
+			calls = append(calls, x)
+		default:
+			return false
+		}
+	}
+	if len(calls) == 0 {
+		return false
+	}
+	g := scanIG(m, fn, nil)
+	isCall := func(n int) bool {
+		c, ok := g.Ins[n].(*ssa.Call)
+		return ok && c.Common().Value == ssa.Value(p)
+	}
+	for _, c := range calls {
+		tested := false
+		for _, f := range g.AllEdgeFacts() {
+			if f.Y != nil || f.X != ssa.Value(c) {
+				continue
+			}
+			tested = true
+			if f.Op == token.NEQ { // the call returned false
+				r := g.Reach([]int{g.Succ[f.Edge.From][f.Edge.K]}, nil, nil)
+				for n := range g.Ins {
+					if r[n] && isCall(n) {
+						return false
+					}
+				}
+			}
+		}
+		if !tested {
+			return false
+		}
+	}
+	return true
 }
